@@ -95,6 +95,11 @@ CHECKS = {
    note="Partial by nature: absence of any other hidden interpreter state is what a model assumes; the histories decide it per case. Trusted: Coq kernel; extraction/driver; hist_worker.py. Axioms: none.",
    technique="Coq lemmas (injective numbering, fresh names) + history / hash-seed / directory correspondence",
    design="5 C18"),
+ "C19": dict(
+   text="Proof (partial): the search loop of spuriousSSM as repaired (score-neutral moves count as boring, a boredom limit is always in force) terminates for every sequence of random choices and every score function within (|V|+1)*bmax iterations, by the lexicographic measure (number of sequences with strictly better score, bmax - bored) over the finite universe V; the loop as it was before the repair has a run that never stops (2 theorems, closed). The validity predicate (test_consistency: blanks, template membership, every eq and wc entry) is extracted from Coq and evaluated on every traced and final sequence printed by an ASan+UBSan binary built from the working tree, on consistent triples (designer output in both layouts, lengths 1 to 282, fully fixed to fully free) x option sets; runs without tmax/imax must stop by the program's own rule within the time-out.",
+   note="Partial: constrain / mutate preserving validity is modelled (Search.v) but only observed through the predicate, not proved; memory safety and absence of undefined behaviour are observed under sanitizers (no C semantics installed); the score functions are abstracted to an arbitrary strict order; the rejection loop inside mutate relies on erand48 not repeating one value forever. Trusted: Coq kernel; extraction/driver; clang sanitizers. Axioms: none.",
+   technique="Coq termination proof for the abstract loop + sanitised runs with an extracted validity predicate",
+   design="5 C19"),
 }
 
 checks = []
